@@ -189,6 +189,9 @@ METADATA_SECTIONS = tuple(CFG_METADATA)
 ANALYSIS_SECTIONS = tuple(CFG_ANALYSIS)
 DEPRECATED_SECTIONS = ("plotting", "analysis")
 _SCALAR = frozenset(SCALAR_FEATURES)
+#: scalar features registered at run time (temporary / plug-in features); the driver of the
+#: registry histories keeps this set in step with dclab's registry
+REGISTERED = set()
 
 #: all type names of the model
 TYPES = ("str", "lcstr", "float", "fint", "fbool", "fintlist", "f1dfloatduple",
@@ -199,7 +202,7 @@ def scalar_feature(name):
     """Frozen notion of "scalar feature name" (innate names + ml_score_???)."""
     if not isinstance(name, str):
         return False
-    if name in _SCALAR:
+    if name in _SCALAR or name in REGISTERED:
         return True
     return (len(name) == 12 and name.startswith("ml_score_")
             and all(c in ML_CHARS for c in name[9:]))
